@@ -397,7 +397,35 @@ func formatGHReviewBody(version string, summary Summary, showDuplicates bool) st
 	return b.String()
 }
 
+func (gr GithubReporter) hasGeneralComment(ctx context.Context, body string) bool {
+	opt := &github.IssueListCommentsOptions{ListOptions: github.ListOptions{PerPage: 100}}
+	for {
+		reqCtx, cancel := gr.reqContext(ctx)
+		comments, resp, err := gr.client.Issues.ListComments(reqCtx, gr.owner, gr.repo, gr.prNum, opt)
+		cancel()
+		if err != nil {
+			slog.Debug("Failed to list existing PR comments", slog.Any("err", err))
+			return false
+		}
+		for _, c := range comments {
+			if strings.TrimSpace(c.GetBody()) == strings.TrimSpace(body) {
+				return true
+			}
+		}
+		if resp == nil || resp.NextPage == 0 {
+			return false
+		}
+		opt.Page = resp.NextPage
+	}
+}
+
 func (gr GithubReporter) generalComment(ctx context.Context, body string) error {
+	// Don't post the same comment on every run.
+	if gr.hasGeneralComment(ctx, body) {
+		slog.Debug("Comment already exits", slog.String("body", body))
+		return nil
+	}
+
 	comment := github.IssueComment{
 		Body: github.Ptr(body),
 	}
